@@ -19,6 +19,7 @@ import (
 	"fmt"
 	"html"
 	"html/template"
+	"math"
 	"strconv"
 	"strings"
 
@@ -366,7 +367,12 @@ func printStruct(sb *stringBuilder, s *parser.StructLike, structType string) {
 
 func printConstTypedValue(sb *stringBuilder, ctv *parser.ConstTypedValue) {
 	if ctv.Double != nil {
-		sb.writeString(strconv.FormatFloat(*ctv.Double, 'f', -1, 64))
+		val := strconv.FormatFloat(*ctv.Double, 'f', -1, 64)
+		if !strings.Contains(val, ".") && math.Abs(*ctv.Double) >= 1<<63 {
+			// without a fraction the parser reads an integer, and this one does not fit
+			val += ".0"
+		}
+		sb.writeString(val)
 	} else if ctv.Int != nil {
 		sb.writeString(fmt.Sprintf("%d", *ctv.Int))
 	} else if ctv.Literal != nil {
